@@ -115,4 +115,13 @@ var plans = map[string]plan{
 			"mixed-type oneOf/anyOf branches and untyped schemas are outside the quantifier's list of shapes",
 		},
 	},
+	"C06": {
+		Quick:    []stage{enumStage(), rapidStage(5_000)},
+		Thorough: []stage{enumStage(), rapidStage(250_000)},
+		Rule:     "select mode: declared content keys (every subset of <= 3 of 7 keys incl. wildcards, complete) x 12 Content-Type headers x target entry x body family; each entry carries a schema only the body built for it satisfies, so the selected entry is observable through the verdict; oracle = the documented precedence (exact string, without parameters, type/*, */*). missing mode: absent / empty body x required. json / form / multipart / text modes (rapid): value encoded by an independent encoder, decoded by the public decoder (round trip), and the verdict of ValidateRequestBody and ValidateRequest compared with the reference evaluator read as a request (readOnly forbidden and not required, writeOnly allowed, ExcludeReadOnlyValidations). non-trivial = >= 2 declared keys incl. a wildcard (select); readOnly/writeOnly present, an array member in a form body, or >= 2 keywords applied (decode); all missing-body cases. distinct = FNV-64a of the canonical case JSON.",
+		Assume: []string{
+			"wildcard entries matched by a content type without a registered decoder, and bodies whose family differs from the Content-Type (JSON text under text/plain), are exercised but not asserted",
+			"multipart: string members travel as text parts, every other member as an application/json part",
+		},
+	},
 }
